@@ -403,7 +403,7 @@ func parseCase(c *Ctx, j judge, s string, base int, prec uint32, mode uint8, dif
 }
 
 // otherEntryPoints: SetString, ParseDecimal, UnmarshalText and Sscan must agree with Parse.
-func otherEntryPoints(c *Ctx, s string, prec uint32, mode uint8) {
+func otherEntryPoints(c *Ctx, s string, prec uint32, mode uint8, onlyAccepted bool) {
 	if c.Skip() {
 		return
 	}
@@ -413,6 +413,9 @@ func otherEntryPoints(c *Ctx, s string, prec uint32, mode uint8) {
 	pv, _ := protect(func() { _, _, rerr = ref.Parse(s, 0) })
 	if pv != nil {
 		return // reported by parseCase
+	}
+	if onlyAccepted && rerr != nil {
+		return
 	}
 	ro := Observe(ref)
 	same := func(name string, z *Dec, ok bool) {
@@ -429,18 +432,59 @@ func otherEntryPoints(c *Ctx, s string, prec uint32, mode uint8) {
 		}
 	}
 	c.NonTrivial()
-	{
-		z := fresh(prec, mode)
-		var r *Dec
-		var ok bool
-		pv, _ := protect(func() { r, ok = z.SetString(s) })
-		if pv != nil {
-			c.Fail(key("SetString"), fmt.Sprintf("panic: %v", pv))
-		} else {
-			if !ok && r != nil {
-				c.Fail(key("SetString"), "failure with a non-nil result")
+	// receivers: fresh, one whose previous operation was inexact (stale accuracy), one with a longer dirty buffer
+	for _, pre := range []int{preFresh, preInexact, preLonger} {
+		pn := ""
+		if pre != preFresh {
+			pn = " into " + preNames[pre]
+		}
+		{
+			z := buildPre(pre, prec, mode)
+			var r *Dec
+			var ok bool
+			pv, _ := protect(func() { r, ok = z.SetString(s) })
+			if pv != nil {
+				c.Fail(key("SetString"+pn), fmt.Sprintf("panic: %v", pv))
+			} else {
+				if !ok && r != nil {
+					c.Fail(key("SetString"+pn), "failure with a non-nil result")
+				}
+				same("SetString"+pn, z, ok)
 			}
-			same("SetString", z, ok)
+		}
+		{
+			z := buildPre(pre, prec, mode)
+			var err error
+			pv, _ := protect(func() { err = z.UnmarshalText([]byte(s)) })
+			if pv != nil {
+				c.Fail(key("UnmarshalText"+pn), fmt.Sprintf("panic: %v", pv))
+			} else {
+				same("UnmarshalText"+pn, z, err == nil)
+			}
+		}
+		// Sscan: only for accepted finite literals without characters that fmt treats specially
+		if rerr == nil && ro.Form != fInf && !strings.ContainsAny(s, " \t\n") {
+			z := buildPre(pre, prec, mode)
+			var err error
+			var n int
+			pv, _ := protect(func() { n, err = fmt.Sscan(s, z) })
+			if pv != nil {
+				c.Fail(key("Sscan"+pn), fmt.Sprintf("panic: %v", pv))
+			} else if err != nil || n != 1 {
+				c.Fail(key("Sscan"+pn), fmt.Sprintf("n=%d err=%v for a literal Parse accepts", n, err))
+			} else {
+				same("Sscan"+pn, z, true)
+			}
+		}
+		if pre != preFresh {
+			z := buildPre(pre, prec, mode)
+			var err error
+			pv, _ := protect(func() { _, _, err = z.Parse(s, 0) })
+			if pv != nil {
+				c.Fail(key("Parse"+pn), fmt.Sprintf("panic: %v", pv))
+			} else {
+				same("Parse"+pn, z, err == nil)
+			}
 		}
 	}
 	{
@@ -455,30 +499,6 @@ func otherEntryPoints(c *Ctx, s string, prec uint32, mode uint8) {
 			same("ParseDecimal", nil, false)
 		} else {
 			same("ParseDecimal", r, true)
-		}
-	}
-	{
-		z := fresh(prec, mode)
-		var err error
-		pv, _ := protect(func() { err = z.UnmarshalText([]byte(s)) })
-		if pv != nil {
-			c.Fail(key("UnmarshalText"), fmt.Sprintf("panic: %v", pv))
-		} else {
-			same("UnmarshalText", z, err == nil)
-		}
-	}
-	// Sscan: only for accepted finite literals without characters that fmt treats specially
-	if rerr == nil && ro.Form != fInf && !strings.ContainsAny(s, " \t\n") {
-		z := fresh(prec, mode)
-		var err error
-		var n int
-		pv, _ := protect(func() { n, err = fmt.Sscan(s, z) })
-		if pv != nil {
-			c.Fail(key("Sscan"), fmt.Sprintf("panic: %v", pv))
-		} else if err != nil || n != 1 {
-			c.Fail(key("Sscan"), fmt.Sprintf("n=%d err=%v for a literal Parse accepts", n, err))
-		} else {
-			same("Sscan", z, true)
 		}
 	}
 }
@@ -497,7 +517,7 @@ func parseLayers(j judge, tier string) []Layer {
 		layers = append(layers, Layer{
 			Name:   "A1-all-short-strings",
 			Units:  len(A)*len(A) + len(A) + 1,
-			Bounds: fmt.Sprintf("every string of length 0..%d over the 14 symbols %q × bases {0,2,8,10,16}: accept/reject, detected base, value against the reference grammar/evaluator; accept set and base compared with math/big Float.Parse; receiver precision 0 (→34) in ToNearestEven and precision 2 in ToNegativeInf", maxLen, A),
+			Bounds: fmt.Sprintf("every string of length 0..%d over the 14 symbols %q × bases {0,2,8,10,16}: accept/reject, detected base, value against the reference grammar/evaluator; accept set and base compared with math/big Float.Parse; receiver precision 0 (→34) in ToNearestEven and precision 2 in ToNegativeInf; every accepted string also through SetString/UnmarshalText/Sscan/Parse into fresh, previously-inexact and dirty receivers and through ParseDecimal", maxLen, A),
 			Run: func(c *Ctx, u int) {
 				var prefix string
 				switch {
@@ -518,6 +538,7 @@ func parseLayers(j judge, tier string) []Layer {
 						parseCase(c, j, s, b, 0, ToNearestEven, true)
 						parseCase(c, j, s, b, 2, ToNegativeInf, false)
 					}
+					otherEntryPoints(c, s, 2, ToNegativeInf, true) // accepted strings through every entry point and receiver kind
 					if len(prefix) < 2 || len(s) >= maxLen {
 						return
 					}
@@ -555,7 +576,7 @@ func parseLayers(j judge, tier string) []Layer {
 					for _, b := range parseBases {
 						parseCase(c, j, s, b, 5, ToZero, true)
 					}
-					otherEntryPoints(c, s, 5, ToZero)
+					otherEntryPoints(c, s, 5, ToZero, false)
 				}
 			},
 		})
@@ -614,7 +635,7 @@ func parseLayers(j judge, tier string) []Layer {
 								}
 							}
 							if j == judgeValue && ei == 0 {
-								otherEntryPoints(c, s, 3, ToPositiveInf)
+								otherEntryPoints(c, s, 3, ToPositiveInf, false)
 							}
 						}
 					}
